@@ -10,8 +10,12 @@ func (c *Conversation) generateNewDHKeyPair() error {
 }
 
 func (c *Conversation) akeHasFinished() error {
+	// The key pairs of a session that is being replaced are all retired now:
+	// their MAC keys still have to be revealed, in the new session
+	toReveal := c.keys.macKeysToRevealWhenReplaced()
 	c.keys.wipe()
 	c.keys = c.ake.keys
+	c.keys.oldMACKeys = append(c.keys.oldMACKeys, toReveal...)
 	if c.ake.theirKey != nil {
 		c.ssid = c.ake.ssid
 		c.theirKey = c.ake.theirKey
